@@ -138,6 +138,16 @@ for k, v in addenda5.items():
     e = checks[k]
     checks[k] = (e[0], e[1], e[2] + v, e[3], e[4])
 
+# extensions after the sixth round
+addenda6 = {'C01': ' Pointers to interface values (holding a value, holding nil, errors).',
+ 'C04': ' Sort with a comparator that does not distinguish all elements (stable order expected), also over the long roots.',
+ 'C09': ' Batch sizes MaxInt and MaxInt-1 on an on-demand pool.',
+ 'C13': ' Timeouts from 24 days to the largest Duration with an actor that answers at once.',
+ 'C20': ' Kind(Ptr) among the pattern kinds.'}
+for k, v in addenda6.items():
+    e = checks[k]
+    checks[k] = (e[0], e[1], e[2] + v, e[3], e[4])
+
 not_yet = "check not built yet in this round (see DESIGN.md §9 build order); no claim made"
 
 m = {
